@@ -26,6 +26,10 @@ type Case struct {
 	Schedule []int                     `json:"schedule"`
 	// Graph, if set, is used instead of lowering Prog (hand-built shapes).
 	Graph *gen.Graph `json:"graph,omitempty"`
+	// Rank, if set, orders the pending set (by rank, then request sequence)
+	// instead of the node id; used to address the same logical task in two
+	// different lowerings of one program.
+	Rank map[string]int `json:"-"`
 }
 
 // Normalize repairs JSON round-trip types (float64 -> int64).
@@ -245,6 +249,9 @@ func RunLockstep(c *Case, pick func(n int) int, hk *Hooks) *Outcome {
 		}
 		sort.SliceStable(idx, func(a, b int) bool {
 			ra, rb := m.Pending[idx[a]], m.Pending[idx[b]]
+			if c.Rank != nil && c.Rank[ra.Node.ID] != c.Rank[rb.Node.ID] {
+				return c.Rank[ra.Node.ID] < c.Rank[rb.Node.ID]
+			}
 			if ra.Node.ID != rb.Node.ID {
 				return ra.Node.ID < rb.Node.ID
 			}
@@ -331,6 +338,9 @@ func RunLockstep(c *Case, pick func(n int) int, hk *Hooks) *Outcome {
 	}
 	if miss, extra := multisetDiff(m.AllEnds, sum.Ends); len(miss)+len(extra) > 0 {
 		return fail("ends", fmt.Sprintf("end events reached: missing %v extra %v", miss, extra), gs)
+	}
+	if miss, extra := multisetDiff(m.AllLandmarks, sum.Landmarks); len(miss)+len(extra) > 0 {
+		return fail("landmarks", fmt.Sprintf("sub-process completions: missing %v extra %v", miss, extra), gs)
 	}
 	if hk.BeforeClose != nil {
 		hk.BeforeClose(in, m, out)
